@@ -31,7 +31,7 @@ type c09A struct {
 	Name   string `query:"name" form:"name" json:"name"`
 	Admin  bool   `json:"admin"`
 	Role   string
-	secret string `query:"secret"`
+	secret string   `query:"secret"`
 	Tags   []string `query:"tags" form:"tags"`
 }
 type c09B struct {
@@ -257,8 +257,11 @@ func genC09(rng *rand.Rand, n int, emit func(Case), dist map[string]int) {
 			req.Header.Set(echo.HeaderContentType, echo.MIMEApplicationForm)
 			bodySx = L(I(2))
 		case 5:
-			req = httptest.NewRequest(method, target, strings.NewReader("id=5"))
-			req.Header.Set(echo.HeaderContentType, []string{"text/plain", "application/octet-stream", "", "application/x-yaml"}[rng.Intn(4)])
+			// unsupported media types, including names that merely START like a supported one, with bodies a lenient decoder would accept
+			req = httptest.NewRequest(method, target, strings.NewReader([]string{"id=5", `{"id":5,"Id":5,"ID":5}`, "<x><id>5</id><Id>5</Id></x>"}[rng.Intn(3)]))
+			req.Header.Set(echo.HeaderContentType, []string{"text/plain", "application/octet-stream", "", "application/x-yaml", "application/jsonl", "application/json-patch+json",
+				"application/json-seq; charset=utf-8", "application/xml-dtd", "text/xml-external-parsed-entity", "application/x-www-form-urlencoded-v2", "multipart/form-data-x; boundary=b",
+				"application/x-www-form-urlencodedx", "text/xmlx"}[rng.Intn(13)])
 			bodySx = L(I(3))
 		default:
 			req = httptest.NewRequest(method, target, nil)
@@ -304,7 +307,7 @@ func genC09(rng *rand.Rand, n int, emit func(Case), dist map[string]int) {
 				}
 			}
 		}
-		c := e.NewContext(req, httptest.NewRecorder())
+		c := recycledContext(e, req, httptest.NewRecorder())
 		pk := keysOf(params)
 		var pv []string
 		for _, k := range pk {
